@@ -236,11 +236,63 @@ theorem createSlice_lastid (m : Int) (ks : List Key) (hm : 0 ≤ m) (h : AllZero
         · rfl
         · simp [backfillRev_preset _ _ _ hp]
 
-theorem backfillMaps_go_present (n : Nat) (s : Int) :
-    backfillMaps.go (List.replicate n true) s = (up s n).map some := by
+theorem backfillMaps_go_present (sp : Bool) (n : Nat) (s : Int) :
+    backfillMaps.go sp (List.replicate n (some 0)) s = (up s n).map some := by
   induction n generalizing s with
   | zero => simp [backfillMaps.go, up]
   | succ n ih => simp [List.replicate_succ, backfillMaps.go, up, ih]
+
+/-- maps without key entries receive consecutive ids, whatever the loop does with preset keys -/
+theorem backfillMaps_go_zero (sp : Bool) (ks : List Key) (s : Int) (h : AllZero ks) :
+    backfillMaps.go sp (ks.map some) s = (up s ks.length).map some := by
+  induction ks generalizing s with
+  | nil => simp [backfillMaps.go, up]
+  | cons k ks ih =>
+    have hk : k = 0 := h k (by simp)
+    have hr : AllZero ks := fun x hx => h x (by simp [hx])
+    simp [backfillMaps.go, up, hk, ih _ hr]
+
+/-- the repaired loop leaves maps that carry their own key alone -/
+theorem backfillMaps_go_preset (ks : List Key) (s : Int) (h : AllPreset ks) :
+    backfillMaps.go true (ks.map some) s = ks.map some := by
+  induction ks generalizing s with
+  | nil => simp [backfillMaps.go]
+  | cons k ks ih =>
+    have hk : k ≠ 0 := h k (by simp)
+    have hr : AllPreset ks := fun x hx => h x (by simp [hx])
+    simp [backfillMaps.go, hk, ih _ hr]
+
+/-- `Create(&maps)` without RETURNING, repaired loop: uniform batches (no map carries a key / every map carries one) leave
+    every map with the key of its row -/
+theorem createMapsKeys_uniform (m : Int) (ks : List Key) (hm : 0 ≤ m) (h : AllZero ks ∨ AllPreset ks) :
+    (createMapsKeys true m ks).1 = (dbInsert m ks).1.map some := by
+  have e : (createMapsKeys true m ks).1 =
+      createBackfillMaps true true true (ks.map some) ⟨(dbInsert m ks).1.length, lastRowId (dbInsert m ks).1⟩ := by
+    simp [createMapsKeys]
+  rw [e]
+  simp only [createBackfillMaps]
+  rcases h with hz | hp
+  · cases ks with
+    | nil => simp [dbInsert]
+    | cons k ks =>
+      rw [dbInsert_zero m _ hz]
+      have hlen : (k :: ks).length = ks.length + 1 := rfl
+      simp only [up_length, hlen, lastRowId, up_getLast]
+      have h1 : ¬ (((ks.length + 1 : Nat) : Int) = 0) := by omega
+      have h2 : ¬ (m + 1 + (ks.length : Int) ≤ 0) := by omega
+      simp only [h1, h2, if_false, Bool.not_true, Bool.false_eq_true, backfillMaps, if_true, List.length_map, hlen]
+      rw [backfillMaps_go_zero _ _ _ hz, hlen]
+      congr 2
+      push_cast
+      omega
+  · rw [dbInsert_preset m ks hp]
+    split
+    · rfl
+    · split
+      · rfl
+      · split
+        · rfl
+        · simp [backfillMaps, backfillMaps_go_preset _ _ hp]
 
 /-! ### batches -/
 
